@@ -1,9 +1,17 @@
 import RecipeGrid.Model.Html
+import RecipeGrid.Model.ParserDispatch
 /-! Line protocol: one request S-expression per line, one reply per line. -/
 namespace RG
 open Sexp
 
 def err (msg : String) : Sexp := Sexp.tag "bad-request" [Sexp.atom msg]
+
+def invResult : Except InvErr Tree → Sexp
+  | .ok t => Sexp.tag "ok" [t.toSexp]
+  | .error .multiOutputNonRoot => .atom "MultiOutputSubRecipeUsedAsNonRootNodeError"
+  | .error .outputIndex => .atom "OutputIndexError"
+  | .error .zeroOutput => .atom "ZeroOutputSubRecipeError"
+  | .error .referenceToInvalid => .atom "ReferenceToInvalidSubRecipeError"
 
 def dispatch : Sexp → Sexp
   | .list [.atom "todouble", p, q] =>
@@ -69,6 +77,18 @@ def dispatch : Sexp → Sexp
     match blocksOfSexp? bs with
     | some bs => Sexp.ofBool (checkBlocks [] bs)
     | _ => err "args"
-  | _ => err "unknown"
+  | .list [.atom "mkstep", d, ts] =>
+    match Svs.ofSexp? d, Sexp.asList? Tree.ofSexp? ts with
+    | some d, some ts => invResult (mkStep d ts)
+    | _, _ => err "args"
+  | .list [.atom "mksub", b, ns, sh] =>
+    match Tree.ofSexp? b, Sexp.asList? Svs.ofSexp? ns, sh.asBool? with
+    | some b, some ns, some sh => invResult (mkSub b ns sh)
+    | _, _, _ => err "args"
+  | .list [.atom "mkref", sub, i, a] =>
+    match Tree.ofSexp? sub, i.asNat?, Amount.ofSexp? a with
+    | some sub, some i, some a => invResult (mkReference sub i a)
+    | _, _, _ => err "args"
+  | req => (dispatchParser req).getD (err "unknown")
 
 end RG
